@@ -74,6 +74,9 @@ func body(t *mtask) func(ctx context.Context) error {
 		switch t.Out {
 		case "err":
 			return errInjected
+		case "errc":
+			// a failure that wraps a sentinel some loops treat as "finished": an error of the function all the same
+			return fmt.Errorf("microtask %s aborted: %w (%w)", t.ID, errInjected, context.Canceled)
 		case "panic":
 			panic("injected panic in microtask " + t.ID)
 		}
@@ -196,7 +199,11 @@ func main() {
 		byID[t.ID] = t
 		ids = append(ids, t.ID)
 		prios = append(prios, t.Prio)
-		outs = append(outs, t.Out)
+		if t.Out == "errc" {
+			outs = append(outs, "err")
+		} else {
+			outs = append(outs, t.Out)
+		}
 	}
 	tr.Emit(map[string]any{"e": "init", "ids": ids, "prios": prios, "outs": outs, "limit": sc.Threshold,
 		"expiry": sc.Expiry, "h": 0, "t": 0})
